@@ -22,7 +22,7 @@ cd "$vh/harness" || exit 2
 if ! CARGO_NET_OFFLINE=true cargo build --offline --bin "$bin" >"$vh/build.log" 2>&1; then
 	echo "MACHINERY-ERROR build failed (see $vh/build.log)" >&2; tail -30 "$vh/build.log" >&2; exit 2
 fi
-export VERIF_OUT="$vh/out" VERIF_REPO="$wt" RUST_BACKTRACE=0 RUST_LIB_BACKTRACE=0
+export VERIF_OUT="$vh/out" VERIF_REPO="$wt" VERIF_BIN_TARGET="$vh/target-bin" RUST_BACKTRACE=0 RUST_LIB_BACKTRACE=0
 "$vh/target/debug/$bin" "$@"
 rc=$?
 if [ $rc -ge 128 ]; then
